@@ -1308,6 +1308,43 @@ func (w *world) audit(res *hx.Result, spec *worldSpec, ci int, cs *contactSpec, 
 				}
 			}
 		}
+		// multi-valued properties (the urn attribute, URN schemes): evaluateCondition documents "foo = x is true if any
+		// value of foo is x" and "foo != x is only true if all values of foo are not x" — so `!=` is the negation of `=`
+		// and `=` holds exactly for the values the contact has, whatever their position among several
+		if p.multiValued() {
+			var paths []string
+			for _, u := range c.URNs() {
+				if p.PT == "attr" || u.URN().Scheme() == p.Key {
+					paths = append(paths, u.URN().Path())
+				}
+			}
+			if len(paths) >= 2 {
+				probes := append(append([]string{}, paths...), strings.ToUpper(paths[len(paths)-1]), "no-such-urn-zq")
+				for _, x := range probes {
+					eq, v1 := ev(p, "=", x)
+					ne, v2 := ev(p, "!=", x)
+					if !v1 || !v2 {
+						res.Dist("audit-skipped-invalid")
+						continue
+					}
+					res.OracleChecks++
+					has := false
+					for _, q := range paths {
+						has = has || goNorm(q) == goNorm(x)
+					}
+					res.Dist(fmt.Sprintf("multi-valued:%d-values:has=%v", min(len(paths), 4), has))
+					if eq == "panic" || ne == "panic" {
+						res.Fail("panic:eval:comparison-on-"+p.PT+"-text", fi(p, "=", x, ""), "= / != on a multi-valued property panicked")
+					} else if (eq == "true") != has {
+						res.Fail("multi-valued:eq", fi(p, "=", x, fmt.Sprintf("values %q", paths)),
+							fmt.Sprintf("the contact's values are %q: `= %q` should be %v, is %s", paths, x, has, eq))
+					} else if (ne == "true") != !has {
+						res.Fail("multi-valued:ne", fi(p, "!=", x, fmt.Sprintf("values %q", paths)),
+							fmt.Sprintf("the contact's values are %q: `= %q` is %s and `!= %q` is %s (!= must hold iff no value equals)", paths, x, eq, x, ne))
+					}
+				}
+			}
+		}
 		if p.VT != "number" && p.VT != "datetime" {
 			continue
 		}
